@@ -7,7 +7,7 @@ non-uniform partitions / nested product spaces incl. empty ones) x dtype
 constant, array, the three named custom functions, cell volume) x exponent
 class (2, 1, inf, generic p) x memory layout (C, F, strided, reversed) x size
 regime (1..9, 99/100/101, 300, 49 999/50 000/50 001) x element classes
-(generic, zero, y == x) x scalar classes.  Domain limits mix integer /
+(generic, zero, y == x, near pair) x scalar classes.  Domain limits mix integer /
 dyadic values on purpose so that "cell volume == 1.0 exactly and a node on
 the boundary" (finding F02) is a populated stratum.
 Oracle: ``vlib.ref.norms`` evaluates the documented formulas in long double
@@ -54,8 +54,19 @@ TOLERANCES = {
     'formula': '|got - ref| <= (4 N + 64) * eps * M with N = number of scalar '
                'entries, eps = machine epsilon of the narrowest component '
                'dtype (float64 for integers), M = sum of |terms| (inner) / '
-               'the value itself (norm) / the norm of |x|+|y| (dist: the '
-               'library scales x and y separately before subtracting)',
+               'the value itself (norm)',
+    'dist': '|dist(x,y) - ref| <= (4 N + 64) eps ref + ||e|| + floor, ref = '
+            '||x - y|| in long double from the stored values (result-'
+            'relative: fl(x_i - y_i) has relative error eps). e_i = k_i eps '
+            '(|x_i| + |y_i|) only on the k_i-fold scaled boundary entries of '
+            'uniformly discretized spaces with a boundary fraction != 1 and '
+            'p < inf (the library scales x and y by frac^(1/p) before '
+            'subtracting; triangle inequality), 0 elsewhere; floor = (sum(w) '
+            '* tiny(dtype))^(1/p) for p < inf (terms w |d|^p below the '
+            'smallest normal number may be lost), reduced like a norm over '
+            'product spaces. dist(y,x) and the library norm(x - y) within '
+            'twice that bound; dist(x,y) > 0 for x != y unless ref <= 4 '
+            '(||e|| + floor)',
     'laws': 'same relative factor applied to the natural magnitude of each '
             'law (|s| M_xy + |t| M_zy for linearity, ||x|| ||y|| for '
             'Cauchy-Schwarz, ...)',
@@ -93,7 +104,7 @@ REQUIRED_STRATA = [
     'kind:discr_coords', 'kind:pspace', 'kind:tensor', 'nonuniform',
     'regime:large', 'dt:cplx', 'dt:int', 'dt:f32', 'pspace:nested',
     'pspace:mixed-dtype', 'layout:noncontig',
-    'one-vol-checked', 'inner-absent-checked', 'frac:generic',
+    'one-vol-checked', 'inner-absent-checked', 'frac:generic', 'pair=near',
 ]
 
 INF = float('inf')
@@ -408,8 +419,14 @@ def _strategy(draw):
         desc[key] = draw(vs.element_descs(sd, orders=orders))
     desc['s'] = draw(_scalar(kind))
     desc['t'] = draw(_scalar(kind))
-    desc['xclass'] = draw(st.sampled_from(['generic'] * 8 + ['zero',
-                                                             'y_eq_x']))
+    desc['xclass'] = draw(st.sampled_from(['generic'] * 7 + [
+        'zero', 'y_eq_x', 'near', 'near', 'near']))
+    if desc['xclass'] == 'near':
+        # y = x (1 +- 2^k eps) on the masked entries, |x| in 1 .. 1e3
+        desc['near'] = {'k': draw(st.integers(0, 12)),
+                        'mask': draw(st.sampled_from(['all', 'first', 'last',
+                                                      'alternate'])),
+                        'sign': draw(st.sampled_from([1, -1]))}
     return desc
 
 
@@ -450,6 +467,30 @@ def _tame(elem, zero=False):
         else:
             # no denormal-range entries: |x|^p must not underflow in float32
             arr[np.abs(arr) < 1e-3] = 0
+
+
+def _near_pair(x, y, nd):
+    """Make (x, y) a pair of nearly equal elements of comparatively large
+    norm: |x_i| in [1, 1e3] and y_i = fl(x_i (1 + s 2^k eps)) on the masked
+    entries (float64: relative distance 2e-10 .. 1e-6, float32: 1e-6 ..
+    5e-4; integers: y_i = x_i + 1), y_i = x_i elsewhere.  fl(x_i - y_i) is
+    exact (Sterbenz)."""
+    for a, b in zip(build.leaf_arrays_of(x), build.leaf_arrays_of(y)):
+        n = a.size
+        idx = np.arange(n).reshape(a.shape)
+        mask = {'all': idx >= 0, 'first': idx == 0, 'last': idx == n - 1,
+                'alternate': idx % 2 == 0}[nd['mask']]
+        if a.dtype.kind in 'iu':
+            b[...] = a + mask.astype(a.dtype)
+            continue
+        small = np.abs(a) < 1
+        a[small] = a[small] + 1        # (|v + 1| >= 1 may fail for complex)
+        small = np.abs(a) < 1
+        a[small] = 1
+        eps = np.finfo(a.dtype).eps
+        k = 20 + nd['k'] if eps < 1e-10 else 3 + min(nd['k'], 9)
+        fac = 1 + nd['sign'] * float(eps) * 2.0 ** k
+        b[...] = np.where(mask, a * a.dtype.type(fac), a)
 
 
 def _assign(dst, src):
@@ -652,19 +693,31 @@ def _check_formulas(space, sd, node, x, y, xv, yv, ctx, unsigned, top):
             raise Violation('C02|not-offered|dist|{}|{}'.format(site, region),
                             'dist raises NotImplementedError although the '
                             'documented formula is defined')
+        # reference ||x - y|| from the stored (rounded) values of x and y;
+        # bound relative to the *result* (fl(x_i - y_i) has relative error
+        # eps), plus what the boundary scaling of discretized spaces and
+        # underflow of |d|^p can legitimately cost (see vlib.ref.norms)
         ref = norms.dist(node, xv, yv)
-        scale = norms.norm(_norm_node(node), _absum(xv, yv))
+        extra = norms.norm(node, norms.boundary_scaling_error(
+            node, xv, yv)) + norms.underflow_floor(node)
+        tol = rel * ref + extra + tiny
         if not isinstance(got, float):
             raise Violation('C02|type|dist|{}|{}'.format(site, region),
                             'dist returned {!r}'.format(type(got)))
-        if not (abs(got - ref) <= rel * scale + tiny) or got < 0:
+        if not (abs(got - ref) <= tol) or got < 0:
             raise Violation(
                 'C02|formula|dist|{}|{}'.format(site, region),
-                'dist {} reference {} (err {:.3g}, tol {:.3g})'.format(
+                'dist {} reference {} (err {:.3g}, tol {:.3g} = {:.3g} * '
+                'ref + {:.3g})'.format(
                     _fmt(got), _fmt(ref), float(abs(got - ref)),
-                    float(rel * scale)))
+                    float(tol), rel, float(extra)))
+        if got == 0.0 and norms.differ(xv, yv) and ref > 4 * extra:
+            raise Violation(
+                'C02|dist-positive|dist|{}|{}'.format(site, region),
+                'dist(x, y) = 0 for x != y (||x - y|| = {})'.format(
+                    _fmt(ref)))
         out['dist'] = got
-        out['dist_scale'] = scale
+        out['dist_tol'] = tol
 
     # ---- ||1||_p^p = volume ----------------------------------------------
     if node['leaf'] and node['default_w'] and node['p'] != INF and \
@@ -678,16 +731,6 @@ def _check_formulas(space, sd, node, x, y, xv, yv, ctx, unsigned, top):
                     _fmt(got), _fmt(want), node['p']))
         ctx.strata.add('one-vol-checked')
     return out
-
-
-def _norm_node(node):
-    return node
-
-
-def _absum(xv, yv):
-    if isinstance(xv, list):
-        return [_absum(a, b) for a, b in zip(xv, yv)]
-    return np.abs(norms._c(xv)) + np.abs(norms._c(yv))
 
 
 def _node_strata(sd, node, ctx, depth=0):
@@ -754,6 +797,8 @@ def run_case(desc):
     _tame(z)
     if desc['xclass'] == 'y_eq_x':
         _assign(y, x)
+    elif desc['xclass'] == 'near':
+        _near_pair(x, y, desc['near'])
     xv, yv, zv = _values(x), _values(y), _values(z)
     s, t = desc['s']['value'], desc['t']['value']
     if unsigned:
@@ -850,15 +895,15 @@ def run_case(desc):
                  '{!r}'.format(x.inner(y), ixy))
     if 'dist' in got:
         dxy = got['dist']
-        sc = got['dist_scale']
+        dtol = 2 * got['dist_tol']
         dyx = lib(lambda: space.dist(y, x), 'dist')
-        if not abs(dxy - dyx) <= 2 * rel * sc + tiny:
+        if not abs(dxy - dyx) <= dtol:
             viol('dist-symmetry', 'd(x,y) = {!r}, d(y,x) = {!r}'.format(
                 dxy, dyx))
         if 'norm' in got:
             nd = lib(lambda: space.norm(space.lincomb(1, x, -1, y)),
                      'norm')
-            if not abs(dxy - nd) <= 2 * rel * sc + tiny:
+            if not abs(dxy - nd) <= dtol:
                 viol('dist-norm', 'd(x,y) = {!r}, ||x-y|| = {!r}'.format(
                     dxy, nd))
         if desc['xclass'] == 'y_eq_x' and dxy != 0.0:
@@ -904,6 +949,11 @@ def run_case(desc):
         ctx.strata.add('layout:noncontig')
     ctx.strata.add('regime:' + regime)
     ctx.strata.add('xclass:' + desc['xclass'])
+    if desc['xclass'] == 'near':
+        ctx.strata.add('pair=near')
+        ctx.strata.add('pair=near|{}|w={}{}'.format(
+            sd['kind'], node['wkind'],
+            ',bdry' if node['leaf'] and node['bdry'] else ''))
     ctx.strata.add('s:' + desc['s']['cls'])
     first = 'top:{}|w={}|p={}'.format(sd['kind'], node['wkind'],
                                       _pclass(node['p']))
